@@ -90,9 +90,16 @@ class RecorderRoles(object):
         for n in ast.walk(self.init.node):
             if isinstance(n, ast.Assign) and len(n.targets) == 1 and _self_attr(n.targets[0]):
                 self.init_values[_self_attr(n.targets[0])] = n.value
-        self.counter = self._one('invocation-counter-field', [
-            f for f, v in self.init_values.items() if isinstance(v, ast.Call) and isinstance(v.func, ast.Name) and
-            v.func.id == 'Counter'])
+        counters = [f for f, v in self.init_values.items() if isinstance(v, ast.Call) and isinstance(v.func, ast.Name) and v.func.id == 'Counter']
+        if len(counters) > 1:
+            # several counting fields: the output ordinal is the one incremented and read back as the ordinal handed to the output recorder
+            # (`self.<f>[alias] += 1; n = self.<f>[alias]`) - a counter only read through a helper is something else
+            ordinal = [f for f in counters if any(
+                isinstance(n, ast.AugAssign) and isinstance(n.target, ast.Subscript) and _self_attr(n.target.value) == f for n in ast.walk(c.node)) and
+                any(isinstance(n, ast.Assign) and isinstance(n.value, ast.Subscript) and _self_attr(n.value.value) == f for n in ast.walk(c.node))]
+            if len(ordinal) == 1:
+                counters = ordinal
+        self.counter = self._one('invocation-counter-field', counters)
         self.thread_local = self._one('thread-local-field', [
             f for f, v in self.init_values.items() if isinstance(v, ast.Call) and norm(v.func) in ('threading.local', 'local')])
         rnd = sorted(f for f, v in self.init_values.items() if isinstance(v, ast.Call) and isinstance(v.func, ast.Name) and
@@ -122,10 +129,18 @@ class RecorderRoles(object):
         if len(set(en_fields)) > 1 and len(set(en_true)) == 1:
             en_fields = en_true       # the switch is the field set to True; anything else written there is not the switch
         self.enabled = self._one('enabled-field', en_fields)
-        self.class_params = self._one('class-parameters-table', [
-            _self_attr(n.func.value) for n in ast.walk(self.start.node)
-            if isinstance(n, ast.Call) and isinstance(n.func, ast.Attribute) and n.func.attr == 'get' and
-            _self_attr(n.func.value)])
+        def table_reads(fn):
+            return [_self_attr(n.func.value) for n in ast.walk(fn.node)
+                    if isinstance(n, ast.Call) and isinstance(n.func, ast.Attribute) and n.func.attr == 'get' and _self_attr(n.func.value)] + \
+                   [_self_attr(n.value) for n in ast.walk(fn.node) if isinstance(n, ast.Subscript) and _self_attr(n.value) and
+                    isinstance(self.init_values.get(_self_attr(n.value)), (ast.Dict, ast.Call))]
+        tr = table_reads(self.start)
+        if not tr:
+            # the lookup written as a helper of the recorder: the table is what that helper reads
+            for n in ast.walk(self.start.node):
+                if isinstance(n, ast.Call) and _self_attr(n.func) and c.lookup(n.func.attr) is not None:
+                    tr += [f for f in table_reads(c.lookup(n.func.attr)) if isinstance(self.init_values.get(f), ast.Dict)]
+        self.class_params = self._one('class-parameters-table', tr)
         self.per_run_fields = [self.active, self.params, self.force_flag, self.counter, self.playback, self.outputs]
         # ---- reset routine: the method (not __init__) that assigns None to the active field and is called by discard
         resets = [m for m in c.methods.values() if m is not self.init and any(
@@ -262,6 +277,13 @@ class RecorderRoles(object):
         if self.counter in subs:
             return 'output'
         kb = set()
+        # calls made by helper functions defined beside the closure (in its decorator) and called by it count as the closure's own
+        par = cl.parent
+        if par is not None:
+            local_called = {n.func.id for n in ast.walk(cl.node) if isinstance(n, ast.Call) and isinstance(n.func, ast.Name)}
+            for nm_, sib in par.nested.items():
+                if not isinstance(sib, list) and sib is not cl and nm_ in local_called:
+                    names |= {n.func.attr for n in ast.walk(sib.node) if isinstance(n, ast.Call) and isinstance(n.func, ast.Attribute) and _self_attr(n.func)}
         for nm in names:
             m = self.cls.lookup(nm)
             if m is not None:
